@@ -218,6 +218,31 @@ func AnyRoot(name string, C, K int) AnyBuf {
 	return r
 }
 
+// AnyRootWindow is the type-erased kit.RootWindow: a sentinel-filled root and
+// the window root.Slice(a,b) (+ partial appended samples), built in construction
+// order fix (0: fill through the root header then slice; 1: slice first, then
+// fill through the root; 2: fill through an alias, then slice from the root).
+func AnyRootWindow(name string, C, K, a, b, partial, fix int) (root, w AnyBuf) {
+	root = AllocAny(name, signal.Allocator{Channels: C, Length: K, Capacity: K})
+	fillVia := root
+	switch fix {
+	case 1:
+		w = root.Slice(a, b)
+	case 2:
+		fillVia = root.Slice(0, K)
+	}
+	for p := 0; p < C*K; p++ {
+		fillVia.Set(p, IV(Sentinel(p)))
+	}
+	if w == nil {
+		w = root.Slice(a, b)
+	}
+	for k := 0; k < partial; k++ {
+		w.AppendSample(IV(PartialVal(k)))
+	}
+	return root, w
+}
+
 // SameVal compares two exact values of one element type: integers by value,
 // floats by bit pattern with all NaNs equal.
 func SameVal(a, b Val) bool {
